@@ -70,6 +70,24 @@ def run(e: Engine, rep: Report):
              'of it assigned) before the handler returns - re-binding the '
              'local name changes nothing on the wire')
     r28(e, rep)
+    rep.rule('R2.9', 'what _pool_imap reads off a greenlet it read off a '
+             'finished one: `.value` / `.exception` only after an unbounded '
+             'join(), a get(), a positive ready() / successful() test or a '
+             'blocking kill (a write still running reads as value None - an '
+             'id, to enqueue)')
+    r29(e, rep)
+    rep.rule('R2.10', '= C11-N10: RelayPool.attempt hands the proxy queue '
+             'what the client decided through AsyncResult.get() (a failed '
+             'request read with wait() / .value is None - "queued")')
+    from . import c11 as _c11
+    sub = Report(rep.prop, rep.tier, rep.repo)
+    _c11.n10(e, sub, 'R2.10')
+    for o in sub.obls:
+        rep.add('R2.10', o.where, o.text, o.status, o.what, o.loc, o.witness,
+                o.nontrivial, o.reason)
+    rep.errors += sub.errors
+    rep.evaluations += sub.evaluations
+    rep.functions |= sub.functions
     rep.floor('R2.1', 4, 'reply decision sites')
 
 
@@ -1159,3 +1177,77 @@ def r28(e: Engine, rep: Report):
               loc=ctx.func.loc(), reason='reply.copy(...) / attribute '
               'assignment on every failure path',
               witness=dataflow.render_path(pth, 14) if pth else None)
+
+
+# -------------------------------------------------------------------- R2.9
+def r29(e: Engine, rep: Report):
+    ctx = e.method_ctx(QUEUE, '_pool_imap')
+    g = e.build(ctx, raises=lambda b, n, r: set(),
+                inline=e.inline_same_self(
+                    deny=['_pool_spawn', '_pool_run', '_holds_pool_slot']),
+                max_depth=3)
+    where = ctx.func.qname
+    rep.functions.add(where)
+    reads = []
+    for n in g.nodes:
+        if n.kind not in ('stmt', 'call', 'test'):
+            continue
+        for x in c07.own_exprs(n) if hasattr(c07, 'own_exprs') else []:
+            for y in ast.walk(x):
+                if isinstance(y, ast.Attribute) and \
+                        y.attr in ('value', 'exception') and \
+                        isinstance(y.ctx, ast.Load) and \
+                        isinstance(y.value, ast.Name):
+                    reads.append((n, y))
+    if not reads:
+        rep.unknown('R2.9', where, 'results are read off finished greenlets',
+                    'cannot see where _pool_imap reads the outcome of the '
+                    'writes (.value / .exception)', loc=ctx.func.loc())
+        return
+
+    def step(n, label, st):
+        if isinstance(label, tuple):
+            return st
+        if n.kind == 'iter':
+            return 'running'            # the next greenlet
+        if n.kind == 'call' and isinstance(n.ast.func, ast.Attribute):
+            nm = n.ast.func.attr
+            if nm == 'join':
+                bounded = bool(n.ast.args) or any(
+                    k.arg in ('timeout', None) for k in n.ast.keywords)
+                return 'maybe' if bounded else 'done'
+            if nm in ('get', 'joinall', 'wait') and not n.ast.args and \
+                    not n.ast.keywords:
+                return 'done'
+            if nm == 'kill':
+                nb = any(k.arg == 'block' and
+                         isinstance(k.value, ast.Constant) and
+                         k.value.value is False for k in n.ast.keywords)
+                return st if nb else 'done'
+        if n.kind == 'test' and label in ('T', 'F'):
+            t = n.ast
+            if isinstance(t, ast.Call) and \
+                    isinstance(t.func, ast.Attribute) and \
+                    t.func.attr in ('ready', 'successful', 'dead') and \
+                    label == 'T':
+                return 'done'
+        return st
+    seen = set()
+    for n, y in reads:
+        key = (n.id, y.attr)
+        if key in seen:
+            continue
+        seen.add(key)
+        rep.evaluations += 1
+        w = dataflow.typestate_witness(
+            g, 'running', step, lambda x, st, n=n: x is n and st != 'done')
+        rep.check(w is None, 'R2.9', where,
+                  '`%s` read off a finished greenlet' % ast.unparse(y),
+                  '`%s` is read although the greenlet may still be running '
+                  '(join with a timeout, no positive ready() test, a kill '
+                  'that does not wait): a write that has not finished reads '
+                  'as value None, enqueue() takes None for the id and the '
+                  'edge tells the client 250 for a message that is not '
+                  'stored' % ast.unparse(y), loc=n.loc(),
+                  reason='after an unbounded join / positive ready test',
+                  witness=dataflow.render_path(w, 12) if w else None)
